@@ -2,6 +2,7 @@ import CJ.Drv.Loop
 import CJ.Drv.Config
 import CJ.Drv.ReloadSteps
 import CJ.Drv.BlocklistText
+import CJ.Drv.PatternList
 /-! Driver for C19: configuration loading, reload, statistics printer. -/
 open CJ.Drv
 
@@ -13,4 +14,5 @@ def main : IO Unit := runDriver fun
   | "ingestsrc" :: args => Config.handleIngestSrc args
   | "onreload" :: args => ReloadSteps.handle args
   | "loadtext" :: args => BlocklistText.handle args
+  | "pattern" :: args => PatternList.handle args
   | _ => none
